@@ -14,8 +14,12 @@ THEOREM_NAMES = ['run_fuel_mono', 'run_fuel_mono_false', 'word_munch', 'expandTa
                  'document_layout_rt', 'document_layout_open_rt', 'document_crlf_rt', 'document_comments_rt',
                  'stmtTextB_dl_domain', 'stmtTextB_dl_domain_dtype', 'stmtTextB_sl_domain', 'stmtTextB_sl_domain_len',
                  'stmtTextB_comp_domain', 'stmtTextB_resting', 'stmtTextB_kernel', 'stmtTextB_kernel_conc', 'stmtTextB_reaction_plain',
-                 'stmtTextB_reaction_info', 'stmtTextL_complex', 'stmtTextL_structure']
-THEOREMS = ['Dsd.C13.' + t for t in THEOREM_NAMES]
+                 'stmtTextB_reaction_info', 'stmtTextL_complex', 'stmtTextL_structure',
+                 'document_tabs_rt', 'stmt_tabs_rt', 'stmtTextT_dl_domain', 'stmtTextT_dl_domain_dtype', 'stmtTextT_sl_domain',
+                 'stmtTextT_sl_domain_len', 'stmtTextT_comp_domain', 'stmtTextT_resting', 'stmtTextT_complex', 'stmtTextT_structure',
+                 'stmtTextT_reaction_plain', 'stmtTextT_kernel', 'stmtTextB_kernel_spaced', 'dl_domain_tabs_rt', 'sl_domain_tabs_rt',
+                 'comp_domain_tabs_rt', 'kernel_tabs_rt']
+THEOREMS = ['Dsd.C13.' + t for t in THEOREM_NAMES] + ['Dsd.PP.Tabs.expandTabs_tok', 'Dsd.PP.Tabs.expandTabs_sep', 'Dsd.PP.Tabs.expand_template']
 ASSUMPTIONS = [
     'pyparsing 3.3.2 is modelled by a hand-written interpreter (Model/Pyparsing.lean: whitespace/comment skipping, Word maximal munch, '
     'Literal prefix match, Keyword = prefix match not followed by an identifier character, ordered choice, greedy repetition, Combine adjacency, LineEnd at end of input); its agreement with the real '
@@ -45,8 +49,12 @@ MANIFEST = {
             'document_comments_rt; instances stmtTextB_* / stmtTextL_* for every statement kind; the one shape the grammar itself '
             'does not accept - blanks between a dot-bracket and a comment, which the Word over "(.)+ " swallows - is kept as a checked '
             'example). So every statement kind has a kernel-checked round-trip theorem with arbitrary blank counts at the positions of '
-            'its canonical layout, and documents with comments, blank lines and either line-ending style are concatenations; tabs '
-            '(expandtabs), blanks at the remaining token boundaries, decimal / scientific numbers in reactions, error terms, indented '
+            'its canonical layout, and documents with comments, blank lines and either line-ending style are concatenations. TABS: '
+            'expandTabs_tok / expandTabs_sep / expand_template (Python expandtabs turns every blank/tab separator into at least as many '
+            'blanks), document_tabs_rt and the stmtTextT_* instances: every blank position of the statement theorems may hold any '
+            'mixture of blanks and tabs, including between the words of a kernel pattern (kernel lemmas generalised to several '
+            'blanks). Blanks / tabs at the remaining token boundaries (between the domains of a strand, around "+" and "->", inside '
+            'info boxes and concentrations), decimal / scientific numbers in reactions, error terms, indented '
             'statements, file = string and history independence are NOT theorems: they are decided on the real parser by a '
             'reference renderer over grammar-generated token trees in random layouts, and the model is compared with pyparsing on the '
             'same texts, four negative families and random mutations.',
